@@ -3,6 +3,8 @@
 Every universe term x (every zoo member alone + every witness with every zoo member injected
 at every position: as replacement of any node, as extra list element, as extra dict value/key).
 """
+import copy
+
 from d42 import validate, validate_or_fail
 from d42.validation import Formatter, ValidationException, ValidationResult, format_result
 
@@ -57,6 +59,39 @@ def check_value(s, v):
     return None
 
 
+def _m_clear(v):
+    v.clear()
+
+
+def _m_add_hostile(v):
+    if isinstance(v, list):
+        v.append(ZOO[0])
+        v.insert(0, None)
+    else:
+        v[(0, "extra")] = ZOO[0]
+
+
+def _m_break_member(v):
+    if isinstance(v, list):
+        v[0] = {"zz": [None]} if not isinstance(v[0], dict) else "q"
+    else:
+        k = next(iter(v))
+        v[k] = {"zz": [None]} if not isinstance(v[k], dict) else "q"
+
+
+def _m_nested(v):
+    inner = v[0] if isinstance(v, list) else v[next(iter(v))]
+    if isinstance(inner, list):
+        inner.append(object)
+    elif isinstance(inner, dict):
+        inner[None] = object
+    else:
+        raise ValueError("no nested container")
+
+
+MUTATIONS = [_m_clear, _m_add_hostile, _m_break_member, _m_nested]
+
+
 def minimal_site(t, z, kind):
     """Smallest sub-term on which the bare zoo member alone already fails the same way."""
     for st in unique_subterms(t):
@@ -92,6 +127,24 @@ def worker(shard, nshards, tier, seed):
                 for v in inject(w, z):
                     cases.append((z, v))
         acc.count("nested_injections", len(cases) - len(ZOO))
+        # the same container object judged again after the caller changed it in place
+        for w in M.witnesses(t)[:NWIT[tier]]:
+            if not isinstance(w, (list, dict)):
+                continue
+            for mutate in MUTATIONS:
+                v = copy.deepcopy(w)
+                first = check_value(s, v)
+                try:
+                    mutate(v)
+                except Exception:  # noqa: BLE001
+                    continue
+                acc.count("validations", 2)
+                acc.count("judged_again_after_in_place_change")
+                kind = first or check_value(s, v)
+                if kind:
+                    acc.violation(f"C08|{kind}|{show(t)}|after-in-place-change",
+                                  {"term": src(t), "term_show": show(t), "value": src(w),
+                                   "mutation": mutate.__name__, "kind": kind})
         for z, v in cases:
             acc.count("validations")
             kind = check_value(s, v)
@@ -156,4 +209,8 @@ def replay(case):
     s, err = try_build(t)
     if s is None:
         return f"build failed {err!r}"
+    if "mutation" in case:
+        first = check_value(s, v)
+        {m.__name__: m for m in MUTATIONS}[case["mutation"]](v)
+        return True if (first or check_value(s, v)) == case["kind"] else None
     return True if check_value(s, v) == case["kind"] else None
